@@ -1384,6 +1384,11 @@ class _TreeItems:
                 return
             bucket = bucket._next
             done = 1
+            if len(iterargs) > 2 and iterargs[2] and iterargs[0] is None:
+                # The overall smallest key is None, which as a bound
+                # means "omitted": only the first leaf holds it, the
+                # other leaves must not drop their first key.
+                iterargs = (None, iterargs[1], False, iterargs[3])
 
 
 class _TreeIterator:
